@@ -21,6 +21,10 @@ CHECKS = {
          "Equality is judged by mc/src/obs.rs dumps and by the crate's own PartialEq; documents outside the enumerated spaces are not covered.",
          "DESIGN.md §5 C04"),
 
+ "C09": ("bounded-exhaustive products of core functions / operators with argument tuples from string, number and boolean pools, rendered from the AST and compared with a reference XPath 1.0 core library",
+         "Every function and operator application over the pools (every arity admitted, one below and one above) is evaluated by xml_xpath::query and by the reference evaluator; values compare exactly (numbers bitwise, NaN canonical).",
+         "Trusts mc/src/model/xpath.rs (number <-> string conversions, substring rounding formula, round tie rule, comparison coercions) as the reading of XPath 1.0 sections 3.4, 3.5 and 4; strings outside the pool are not covered.",
+         "DESIGN.md §5 C09"),
  "C12": ("explicit-state BFS over DOM call histories on the real xml_dom objects (state = history, re-executed from a fresh parse; canonical-key dedup), tree invariants evaluated after every transition and attributed to the transition that introduces them",
          "Every DOM Level 1 structural mutator, factory, attribute operation and split_text is applied with every receiver/argument choice among all live handles (attached, detached, created, foreign, document, attributes, text) to every reachable state up to the depth bound; in every reached state all navigation views of all live nodes are cross-checked.",
          "Node identity is (kind, XmlNode::id()); states beyond the depth bound and more than one created node per history are not covered.",
